@@ -27,9 +27,16 @@ Sensitivity (quick tier, seed 1, scratch copies; all caught = exit 1):
   * snapshot 59274db ``friendly_number`` (F8) ............................ caught (replay F08 + search)
   * snapshot 59274db ``(date - now).seconds < 60`` (F9) .................. caught (replay F09 + search)
   * future clock-skew window ``seconds=60`` -> ``seconds=3600`` ........... caught (C46.future_as_past)
+  * numeric timestamps converted with ``fromtimestamp(date)`` (process-local naive time labelled UTC) instead of
+    ``fromtimestamp(date, datetime.timezone.utc)`` ... caught (C46.future_as_past / C46.relative_number) since the
+    process time zone became a generated configuration (``TZ`` = UTC, AAA+5, BBB-9:30, ... + ``time.tzset()`` around
+    each call, restored in ``finally``); invisible before because the sandbox runs in UTC (fourth-round mutation testing)
 """
+import contextlib
 import datetime as real_datetime
+import os
 import re
+import time
 
 from hypothesis import strategies as st
 
@@ -39,7 +46,7 @@ PROPERTY = "C46"
 READY = True
 RULE = (
     "two Hypothesis parts: integers in +-10**30 (boundary-heavy) x {en_US, en, non-English}; and (now, "
-    "offset, input form, zone, gmt_offset, relative, shorter, full_format, locale) with 'now' injected through "
+    "offset, input form, zone, gmt_offset, relative, shorter, full_format, locale, process TZ) with 'now' injected through "
     "a datetime shim and offsets concentrated at phrase boundaries; non-trivial = offset within 2% of a "
     "phrase boundary, or a future date, or a negative number / number needing >=2 groups; distinct = SHA-1 "
     "of the case"
@@ -147,11 +154,32 @@ def call_format_date(loc, now, date, **kw):
     return out, shim.datetime.now_calls
 
 
+@contextlib.contextmanager
+def process_timezone(tz):
+    """The process-wide local time zone is a generated configuration: TZ is set to a POSIX TZ string (no tzdata
+    needed) and time.tzset() is called for the duration of one format_date call; both are restored afterwards.
+    Timestamps and aware/naive-UTC datetimes denote absolute instants, so the result may not depend on it."""
+    saved = os.environ.get("TZ")
+    os.environ["TZ"] = tz
+    time.tzset()
+    try:
+        yield
+    finally:
+        if saved is None:
+            del os.environ["TZ"]
+        else:
+            os.environ["TZ"] = saved
+        time.tzset()
+
+
+PROCESS_TZS = ["UTC", "AAA+5", "BBB-9:30", "CCC+12", "DDD-14", "EEE+0:45", "EST5EDT,M3.2.0,M11.1.0", "<+0330>-3:30", "FFF-1"]
+
 BOUNDARIES_S = [50, 60, 3000, 3600, 86400]  # phrase boundaries (and the unit sizes) in seconds
 
 
 def run_date(ctx, case):
-    _, now_us, offset_us, form, tzmin, gmt_offset, relative, shorter, full_format, code = case
+    _, now_us, offset_us, form, tzmin, gmt_offset, relative, shorter, full_format, code = case[:10]
+    process_tz = case[10] if len(case) > 10 else "UTC"  # older replays carry no process time zone
     now = EPOCH + real_datetime.timedelta(microseconds=now_us)
     date_us = now_us - offset_us
     if form == "int":
@@ -170,9 +198,13 @@ def run_date(ctx, case):
         date = (EPOCH + real_datetime.timedelta(microseconds=date_us)).astimezone(tz)
     e_us = now_us - date_us  # > 0: past
     loc = get_locale(code)
-    out, now_calls = call_format_date(loc, now, date, gmt_offset=gmt_offset, relative=relative, shorter=shorter,
-                                      full_format=full_format)
+    with process_timezone(process_tz):
+        out, now_calls = call_format_date(loc, now, date, gmt_offset=gmt_offset, relative=relative, shorter=shorter,
+                                          full_format=full_format)
     labels = {"date_form_" + form, "date_locale_" + code}
+    labels.add("process_tz_utc" if process_tz == "UTC" else "process_tz_non_utc")
+    if process_tz != "UTC" and form in ("int", "float"):
+        labels.add("numeric_input_in_non_utc_process")
     if now_calls == 0:
         # the injected clock was not consulted: the oracle below would be meaningless
         raise RuntimeError("format_date did not read datetime.datetime.now() through the shim")
@@ -255,6 +287,7 @@ date_s = st.tuples(
     st.booleans(),
     st.sampled_from([False, False, False, True]),
     st.sampled_from(["en_US", "en_US", "en_US", "en", "fr_FR", "zh_CN"]),
+    st.sampled_from(["UTC"] + PROCESS_TZS),
 )
 
 PARTS = {"num": run_num, "date": run_date}
